@@ -86,7 +86,7 @@ func (p *Queue) Read(b []byte) (int, error) {
 			// a deadline that has passed already fails the Read at once, data or not (as the runtime's poller does)
 			p.mu.Unlock()
 			if dl := dlf(); !dl.IsZero() && !time.Now().Before(dl) {
-				return 0, timeoutErr{}
+				return 0, deadlineErr("read")
 			}
 			p.mu.Lock()
 			if p.rdDead {
@@ -125,7 +125,7 @@ func (p *Queue) Read(b []byte) (int, error) {
 		// (inside a bubble this is the virtual clock)
 		d := time.Until(dl)
 		if d <= 0 {
-			return 0, timeoutErr{}
+			return 0, deadlineErr("read")
 		}
 		t := time.NewTimer(d)
 		select {
@@ -134,7 +134,7 @@ func (p *Queue) Read(b []byte) (int, error) {
 		case <-t.C:
 			// re-check: the deadline may have been moved meanwhile
 			if cur := dlf(); !cur.IsZero() && !time.Now().Before(cur) {
-				return 0, timeoutErr{}
+				return 0, deadlineErr("read")
 			}
 		}
 	}
@@ -180,7 +180,7 @@ func (e *End) Write(b []byte) (int, error) {
 	dl := e.wrDL
 	e.mu.Unlock()
 	if !dl.IsZero() && !time.Now().Before(dl) {
-		return 0, timeoutErr{} // the write deadline has passed (queues never fill up, so this is the only way to time out)
+		return 0, deadlineErr("read") // the write deadline has passed (queues never fill up, so this is the only way to time out)
 	}
 	return e.Out.Write(b)
 }
@@ -254,6 +254,9 @@ type Live struct {
 	Sent    []byte // every plaintext octet sent so far (above TLS)
 	Wire    []byte // every plaintext octet received so far (above TLS)
 	nEvents int
+	// Patience: when the server is quiescent and has written nothing, wait that long (virtual clock) once more
+	// before concluding that there is no answer - for backends that take their time (Backend.SlowAbort).
+	Patience time.Duration
 }
 
 // NewLive starts the handler for one connection. implicitTLS wraps the
@@ -291,6 +294,10 @@ func NewLiveOn(srv *smtp.Server, cfg Config, be *Backend, implicitTLS bool) *Liv
 // the last call (plaintext).
 func (l *Live) collect() []byte {
 	Wait()
+	if l.Patience > 0 && l.Client.In.Pending() == 0 {
+		time.Sleep(l.Patience)
+		Wait()
+	}
 	var out []byte
 	if l.TLS == nil {
 		out = l.Client.In.Drain()
@@ -338,6 +345,12 @@ func (l *Live) StartTLSHandshake() error {
 	}
 	l.TLS = c
 	Wait()
+	if l.Patience > 0 {
+		// what the server does after the handshake (ending an open delivery, logging the old session out) may take
+		// a slow backend a while
+		time.Sleep(l.Patience)
+		Wait()
+	}
 	return nil
 }
 
